@@ -379,6 +379,16 @@ EvPy(e) ==
      /\ UNCHANGED <<hdr, trees, acc, api>>
 
 (***************************************************************************)
+(* C06 probe: a degenerate parameter must not make a call unbounded.       *)
+(***************************************************************************)
+EvProbe(e) ==
+  LET v == L(e.kind \in {"querycap", "abort"}, "C06/unbounded[" \o e.name \o "]")
+        \cup L(e.kind = "panic", "C08/panic@probe:" \o e.name)
+  IN /\ Report(v)
+     /\ nviol' = nviol + Cardinality(v)
+     /\ UNCHANGED <<hdr, trees, acc, api>>
+
+(***************************************************************************)
 (* C17: RRT* against plain RRT on the same seed, problem and budget.       *)
 (***************************************************************************)
 EvPair(e) ==
@@ -407,6 +417,7 @@ Next ==
          [] e.ev = "query" -> EvQuery(e)
          [] e.ev = "stream" -> EvStream(e)
          [] e.ev = "pair" -> EvPair(e)
+         [] e.ev = "probe" -> EvProbe(e)
          [] e.ev \in {"pyprm", "pyfault", "pywrap"} -> EvPy(e)
 
 Spec == Init /\ [][Next]_mvars
